@@ -125,6 +125,18 @@ type Check struct {
 
 var registry = map[string]*Check{}
 
+// Overloaded reports that the 1-minute load average is far above the number of CPUs: wall-clock limits then
+// say nothing about termination.
+func Overloaded() bool {
+	b, err := os.ReadFile("/proc/loadavg")
+	if err != nil {
+		return false
+	}
+	var l1 float64
+	fmt.Sscan(string(b), &l1)
+	return l1 > 1.5*float64(runtime.NumCPU())
+}
+
 // crashHint: a fault while the arguments were write-protected, raised on a goroutine the harness does not
 // own (an internal worker of the implementation), is a store into a caller-supplied input.
 func crashHint(unit, es string) string {
@@ -367,15 +379,29 @@ func MasterMain(c *Check, ctx *Ctx, verifDir string, unitFilter string) int {
 				next++
 				mu.Unlock()
 				fmt.Fprintf(stdin, "%d\n", idx)
-				var timer *time.Timer
 				timedOut := false
+				stopWatch := make(chan struct{})
 				if c.UnitTimeout > 0 {
-					timer = time.AfterFunc(c.UnitTimeout, func() { timedOut = true; cmd.Process.Kill() })
+					// the limit is a verdict about termination, not about speed: while the machine is overcommitted
+					// (load far above the CPU count) it is extended, up to four times
+					go func() {
+						for n := 1; ; n++ {
+							select {
+							case <-stopWatch:
+								return
+							case <-time.After(c.UnitTimeout):
+								if n < 4 && Overloaded() {
+									continue
+								}
+								timedOut = true
+								cmd.Process.Kill()
+								return
+							}
+						}
+					}()
 				}
 				line, err := rd.ReadBytes('\n')
-				if timer != nil {
-					timer.Stop()
-				}
+				close(stopWatch)
 				if err != nil && timedOut {
 					cmd.Wait()
 					mu.Lock()
